@@ -143,9 +143,10 @@ void LinPayload::setData(const uint8_t* data, const uint8_t dataLength)
     getHeader()->setDataLength(dataLength);
 }
 
-bool LinPayload::isValidPayload([[maybe_unused]] const uint8_t* data, const size_t size)
+bool LinPayload::isValidPayload(const uint8_t* data, const size_t size)
 {
-    return (size >= sizeof(Header));
+    auto header = reinterpret_cast<const Header*>(data);
+    return (size >= sizeof(Header) && header->getDataLength() <= size - sizeof(Header));
 }
 
 const LinPayload::Header* LinPayload::getHeader() const
